@@ -133,6 +133,91 @@ mod imp {
       v
    }
 
+   /// size sweep of the pair store (`BinaryRel`) under the binary provider: n pairs that share one column value (one bucket of the
+   /// map / of the reverse map grows to n entries) or spread over two values, written through both write paths of the full-index
+   /// write view (`insert_if_not_present` = `BinaryRel::insert_by_ref`, `index_insert` = `BinaryRel::insert`), every pair offered
+   /// twice; no pair composes with another, so the closure is the set of pairs itself.  bytes: shape 0..=3, n 1..=70
+   pub fn binrel_sweep(s: &mut dyn Src, r: &mut Report) {
+      let shape = s.byte();
+      let n = s.byte();
+      s.require(shape < 4 && n >= 1 && n <= 70);
+      if s.rejected() {
+         return;
+      }
+      type P = BTreeSet<(u8, u8)>;
+      let mut want = P::new();
+      let mut new = Bin::default();
+      let mut delta = Bin::default();
+      let mut total = Bin::default();
+      RelIndexMerge::init(&mut new, &mut delta, &mut total);
+      let mut w = ToTrRelIndFull::<u8>::default();
+      let mut flags_ok = true;
+      for round in 0..2u8 {
+         for i in 1..=n {
+            let key = match shape {
+               0 => (i, 0u8),
+               1 => (0u8, i),
+               2 => (i, 100 + (i % 2)),
+               _ => (100 + (i % 2), i),
+            };
+            if round == 1 || (i + shape) % 2 == 0 {
+               let fresh = w.to_rel_index_write(&mut new).insert_if_not_present(&key, ());
+               flags_ok &= fresh == want.insert(key);
+            } else {
+               w.to_rel_index_write(&mut new).index_insert(key, ());
+               want.insert(key);
+            }
+         }
+      }
+      r.note(format!("shape {} (0: (i,0)  1: (0,i)  2: (i,100+i%2)  3: (100+i%2,i)), n = {}", shape, n));
+      chk!(r, "binrel_insert_if_not_present_true_exactly_for_new_pairs", flags_ok);
+      let read = |c: &Bin| -> (P, Vec<(u8, u8)>, Vec<(u8, u8)>, Vec<(u8, u8)>) {
+         let to_full = ToTrRelIndFull::<u8>::default();
+         let to_0 = ToTrRelInd0::<u8>::default();
+         let to_1 = ToTrRelInd1::<u8>::default();
+         let to_none = ToTrRelIndNone::<u8>::default();
+         let full = to_full.to_rel_index(c);
+         let i0 = to_0.to_rel_index(c);
+         let i1 = to_1.to_rel_index(c);
+         let none = to_none.to_rel_index(c);
+         let mut fc = P::new();
+         let (mut g0, mut g1, mut all) = (vec![], vec![], vec![]);
+         for a in (0..=71u8).chain(100..=101) {
+            if let Some(it) = i0.index_get(&(a,)) {
+               for (b,) in it {
+                  g0.push((a, *b));
+               }
+            }
+            if let Some(it) = i1.index_get(&(a,)) {
+               for (x,) in it {
+                  g1.push((*x, a));
+               }
+            }
+            for b in (0..=71u8).chain(100..=101) {
+               if full.contains_key(&(a, b)) {
+                  fc.insert((a, b));
+               }
+            }
+         }
+         if let Some(it) = none.index_get(&()) {
+            for (a, b) in it {
+               all.push((*a, *b));
+            }
+         }
+         (fc, g0, g1, all)
+      };
+      let setof = |v: &Vec<(u8, u8)>| -> P { v.iter().cloned().collect() };
+      RelIndexMerge::merge_delta_to_total_new_to_delta(&mut new, &mut delta, &mut total);
+      let (fc, g0, g1, all) = read(&delta);
+      chk!(r, "binrel_sweep_delta_views_hold_exactly_the_inserted_pairs", fc == want && setof(&g0) == want && setof(&g1) == want && setof(&all) == want);
+      RelIndexMerge::merge_delta_to_total_new_to_delta(&mut new, &mut delta, &mut total);
+      let (fc, g0, g1, all) = read(&total);
+      chk!(r, "binrel_sweep_total_full_index_holds_exactly_the_inserted_pairs", fc == want);
+      chk!(r, "binrel_sweep_total_index_0_holds_exactly_the_inserted_pairs_once", setof(&g0) == want && g0.len() == want.len());
+      chk!(r, "binrel_sweep_total_index_1_holds_exactly_the_inserted_pairs_once", setof(&g1) == want && g1.len() == want.len());
+      chk!(r, "binrel_sweep_total_scan_holds_exactly_the_inserted_pairs_once", setof(&all) == want && all.len() == want.len());
+   }
+
    /// codes: 0 stop, 1..=16 derive (a, b), 17 end of iteration, 18 end of stratum
    pub fn protocol2<const L: usize>(s: &mut dyn Src, r: &mut Report) {
       let mut ops = vec![];
@@ -466,7 +551,9 @@ mod imp {
    }
 }
 #[cfg(not(kani))]
-pub use imp::{protocol2, protocol3};
+pub use imp::{binrel_sweep, protocol2, protocol3};
+#[cfg(kani)]
+pub fn binrel_sweep(_s: &mut dyn Src, _r: &mut Report) {}
 #[cfg(kani)]
 pub fn protocol2<const L: usize>(_s: &mut dyn Src, _r: &mut Report) {}
 #[cfg(kani)]
